@@ -1,6 +1,7 @@
 package refactor
 
 import (
+	"fmt"
 	"strings"
 
 	"github.com/nyaruka/goflow/excellent"
@@ -41,7 +42,14 @@ func expression(expression string, tx func(excellent.Expression) bool) (string, 
 
 	// if transformer actually changes anything, return reformatted expression
 	if tx(parsed) {
-		return parsed.String(), nil
+		refactored := parsed.String()
+
+		// the transformed expression is only useful if it can be read back, and a transformation can make it unreadable,
+		// e.g. renaming foo to foo.bar adds a level to an expression which is already as deep as Parse allows
+		if _, err := excellent.Parse(refactored, nil); err != nil {
+			return "", fmt.Errorf("refactored expression can't be parsed: %w", err)
+		}
+		return refactored, nil
 	}
 
 	// otherwise keep original
